@@ -46,8 +46,10 @@ pub enum TEvent {
 thread_local! {
     pub static TRACE: RefCell<Vec<TEvent>> = RefCell::new(Vec::new());
     pub static INPUT_LEN: RefCell<usize> = RefCell::new(0);
-    pub static YIELD_FN: RefCell<Option<fn()>> = RefCell::new(None);
 }
+
+/// installed once by the scheduler harness (shuttle::thread::yield_now)
+pub static YIELD_FN: std::sync::OnceLock<fn()> = std::sync::OnceLock::new();
 
 #[derive(Clone, Copy)]
 pub struct RecTracer;
@@ -78,8 +80,7 @@ impl ParseTracer for RecTracer {
 pub struct YieldTracer;
 
 fn do_yield() {
-    let f = YIELD_FN.with(|y| *y.borrow());
-    if let Some(f) = f {
+    if let Some(f) = YIELD_FN.get() {
         f()
     }
 }
